@@ -50,6 +50,31 @@ def programs(ctx):
                 p.unit(2, v)
                 p.hasheq(1, 2)
     progs.append(p.d())
+    # the hash of a quantity must not depend on what was hashed before: a quantity of ANOTHER type with the same
+    # amount and unit scale is hashed first
+    p = Prog('c19cross')
+    scal = [t for t in TYPES]
+    for t1 in scal:
+        for t2 in scal:
+            if t1 == t2:
+                continue
+            for u1 in by_type[t1]:
+                for u2 in by_type[t2]:
+                    if units[u1]['scale'] != units[u2]['scale'] or units[u1]['scale'] == 1:
+                        continue
+                    ref2 = [r for r in by_type[t2] if units[r]['scale'] == 1][0]
+                    for a in (F(1), F(3, 2), F(-2)):
+                        if any(units[x]['quantum'] and (a / units[x]['quantum']).denominator != 1 for x in (u1, u2)):
+                            a = a * 8
+                        if units[ref2]['quantum'] and (a * units[u2]['scale'] / units[ref2]['quantum']).denominator != 1:
+                            continue
+                        p.make(1, t1, a, u1)
+                        p.make(2, t1, a, u1, 'frac')
+                        p.hasheq(1, 2)
+                        p.make(1, t2, a, u2)
+                        p.make(2, t2, a * units[u2]['scale'], ref2, 'frac')
+                        p.hasheq(1, 2)
+    progs.append(p.d())
     # table-converted and money: equal across units only through converters
     p = Prog('c19table')
     for (u, a, v, b) in (('tc', F(0), 'tk', F(5463, 20)), ('tc', F(0), 'tf', F(32)), ('tc', F(-40), 'tf', F(-40)),
@@ -87,6 +112,11 @@ def run(ctx):
     ctx.assumptions = ['15-bit rational range of the TLC model (quantities); big naturals (rates)']
     calcmodel.laws(ctx, 'ord')
     calccheck.run_programs(ctx, programs(ctx), 'hash/eq', sigfn=sig)
+    # units along declaration histories: == and hash of every pair after every step (incl. equal-scale units and
+    # units of a type without reference unit that are worth the same)
+    from checks import unitscheck
+    unitscheck.run_menu(ctx, 'uniteq', ['tA', 'tM', 'tMpA', 'p', 'ka', 'ha', 'xa5', 'ppa', 'ppka', 'ppa10'],
+                        6 if ctx.tier == 'quick' else 8)
     # terms: equal <=> same denotation, equal => same hash (Terms.tla)
     from checks import c07, moneycheck
     c07.judge(ctx, c07.eq_cases(ctx), 'terms-eq')
@@ -103,5 +133,8 @@ def replay(ctx, rp):
     elif k in ('money', 'money-plain'):
         from checks import c09
         c09.replay(ctx, rp)
+    elif k == 'units':
+        from checks import unitscheck
+        unitscheck.replay_path(ctx, rp)
     else:
         calccheck.replay(ctx, rp, sig)
